@@ -48,7 +48,7 @@ theorem dec_enc (m : Mode) : ∀ (s : Shape) (v : Val), hasShape s v = true → 
   | .point, .s xs, h => by
     simp only [hasShape] at h
     match xs, h with
-    | [.u a, .h b], _ => simp [encVal, encVals, decVal, decPoint, items, strPayload]
+    | [.u a, .h b], _ => cases m.tags <;> simp [encVal, encVals, decVal, decPoint, pointPair, strip55799, items, strPayload]
     | [], h => simp [fieldsShape] at h
     | [_], h => simp [fieldsShape] at h
     | _ :: _ :: _ :: _, h => simp [fieldsShape] at h
@@ -230,5 +230,408 @@ theorem bytes_roundtrip (m : Mode) (s : Shape) (v : Val) (hs : hasShape s v = tr
     (decode (enc (encVal v) ++ rest)).bind (fun p => decVal m s p.1) = some v := by
   rw [decode_enc _ (encVal_valid v hl) rest]
   simp [dec_enc m s v hs]
+
+
+/-! ## strict ⊆ lax, and strict = `conforms` -/
+
+theorem isNull_of_strPayload {txt : Bool} {t : Cbor} {b : Bytes} (h : strPayload txt t = some b) : isNull t = false := by
+  cases t <;> simp_all [strPayload, isNull]
+
+theorem decLeaf_strict_lax (s : Shape) (t : Cbor) (v : Val) (h : decLeaf Mode.strict s t = some v) :
+    decLeaf Mode.lax s t = some v := by
+  cases s with
+  | raw => simpa [decLeaf] using h
+  | point => simp [decLeaf] at h
+  | «opaque» => simp [decLeaf] at h
+  | uint bits =>
+    simp only [decLeaf, Mode.strict, Bool.false_and, Bool.false_eq_true, ↓reduceIte] at h
+    cases t <;> simp_all [decLeaf, Mode.lax, isNull]
+    all_goals (rename_i neg w n; cases neg <;> simp_all)
+  | bool =>
+    simp only [decLeaf, Mode.strict, Bool.false_and, Bool.false_eq_true, ↓reduceIte] at h
+    cases t <;> simp_all [decLeaf, Mode.lax, isNull]
+    rename_i w n
+    split at h <;> simp_all [isNull]
+  | text =>
+    simp only [decLeaf, Mode.strict, Bool.false_and, Bool.false_eq_true, ↓reduceIte, Option.map_eq_some_iff] at h
+    obtain ⟨b, hb, rfl⟩ := h
+    simp [decLeaf, Mode.lax, isNull_of_strPayload hb, hb]
+  | bytes =>
+    simp only [decLeaf, Mode.strict, Bool.false_and, Bool.false_eq_true, ↓reduceIte, Option.map_eq_some_iff] at h
+    obtain ⟨b, hb, rfl⟩ := h
+    simp [decLeaf, Mode.lax, isNull_of_strPayload hb, hb]
+  | fixed n =>
+    simp only [decLeaf, Mode.strict, Bool.false_and, Bool.false_eq_true, ↓reduceIte] at h
+    split at h
+    · rename_i b hb
+      split at h
+      · rename_i hl
+        simp only [Option.some.injEq] at h; subst h
+        simp [decLeaf, Mode.lax, isNull_of_strPayload hb, hb, padTo_self n b hl]
+      · cases h
+    · cases h
+  | list e => simp [decLeaf, Mode.strict] at h
+  | map k v' => simp [decLeaf, Mode.strict] at h
+  | struct fs => simp [decLeaf, Mode.strict] at h
+
+
+
+theorem pointPair_strip (a h : Cbor) (v : Val) (hp : pointPair a h = some v) :
+    pointPair (strip55799 a) (strip55799 h) = some v := by
+  unfold pointPair at hp
+  split at hp
+  · rename_i w slot
+    split at hp
+    · rename_i hash hs
+      have hh : strip55799 h = h := by cases h <;> simp_all [strPayload, strip55799]
+      simp [pointPair, strip55799, hh, hs, hp]
+    · cases hp
+  · cases hp
+
+theorem decPoint_false_true (t : Cbor) (v : Val) (h : decPoint false t = some v) : decPoint true t = some v := by
+  unfold decPoint at h ⊢
+  cases hi : items t with
+  | none => rw [hi] at h; simp at h
+  | some xs =>
+    rw [hi] at h
+    match xs, h with
+    | [], h => simpa using h
+    | [a, hh], h =>
+      simp only [Bool.false_eq_true, ↓reduceIte] at h
+      simp only [↓reduceIte]
+      exact pointPair_strip a hh v h
+    | [_], h => simp at h
+    | _ :: _ :: _ :: _, h => simp at h
+
+mutual
+theorem strict_lax : ∀ (s : Shape) (t : Cbor) (v : Val), decVal Mode.strict s t = some v → decVal Mode.lax s t = some v
+  | s, .tag w n x, v, h => by
+    cases s with
+    | bytes =>
+      simp only [decVal, Mode.strict, Bool.false_or, decide_eq_true_eq] at h
+      split at h
+      · simp only [decVal, Mode.lax, Bool.true_or, ↓reduceIte]
+        exact strict_lax .bytes x v h
+      · cases h
+    | raw =>
+      simp only [decVal] at h ⊢
+      split
+      · rename_i hn; rw [if_pos hn] at h; exact strict_lax .raw x v h
+      · rename_i hn; rw [if_neg hn] at h; exact h
+    | point => simp [decVal, Mode.strict] at h
+    | «opaque» => simp [decVal] at h
+    | uint _ => simp [decVal, Mode.strict] at h
+    | bool => simp [decVal, Mode.strict] at h
+    | text => simp [decVal, Mode.strict] at h
+    | fixed _ => simp [decVal, Mode.strict] at h
+    | list _ => simp [decVal, Mode.strict] at h
+    | map _ _ => simp [decVal, Mode.strict] at h
+    | struct _ => simp [decVal, Mode.strict] at h
+  | s, .arr w xs, v, h => by
+    cases s with
+    | raw => simpa [decVal] using h
+    | point => simp only [decVal, Mode.strict, Mode.lax] at h ⊢; exact decPoint_false_true _ v h
+    | list e =>
+      simp only [decVal, Option.map_eq_some_iff] at h ⊢
+      obtain ⟨vs, hvs, rfl⟩ := h
+      exact ⟨vs, strict_lax_list e xs vs hvs, rfl⟩
+    | struct fs =>
+      simp only [decVal, Option.map_eq_some_iff] at h ⊢
+      obtain ⟨vs, hvs, rfl⟩ := h
+      exact ⟨vs, strict_lax_fields fs xs vs hvs, rfl⟩
+    | bytes => simp [decVal, Mode.strict] at h
+    | fixed _ => simp [decVal, Mode.strict] at h
+    | «opaque» => simp [decVal] at h
+    | uint _ => simp [decVal] at h
+    | bool => simp [decVal] at h
+    | text => simp [decVal] at h
+    | map _ _ => simp [decVal] at h
+  | s, .arrI xs, v, h => by
+    cases s with
+    | raw => simpa [decVal] using h
+    | point => simp only [decVal, Mode.strict, Mode.lax] at h ⊢; exact decPoint_false_true _ v h
+    | list e =>
+      simp only [decVal, Option.map_eq_some_iff] at h ⊢
+      obtain ⟨vs, hvs, rfl⟩ := h
+      exact ⟨vs, strict_lax_list e xs vs hvs, rfl⟩
+    | struct fs =>
+      simp only [decVal, Option.map_eq_some_iff] at h ⊢
+      obtain ⟨vs, hvs, rfl⟩ := h
+      exact ⟨vs, strict_lax_fields fs xs vs hvs, rfl⟩
+    | bytes => simp [decVal, Mode.strict] at h
+    | fixed _ => simp [decVal, Mode.strict] at h
+    | «opaque» => simp [decVal] at h
+    | uint _ => simp [decVal] at h
+    | bool => simp [decVal] at h
+    | text => simp [decVal] at h
+    | map _ _ => simp [decVal] at h
+  | s, .map w xs, v, h => by
+    cases s with
+    | raw => simpa [decVal] using h
+    | map k e =>
+      simp only [decVal, Option.map_eq_some_iff] at h ⊢
+      obtain ⟨vs, hvs, rfl⟩ := h
+      exact ⟨vs, strict_lax_map k e xs vs hvs, rfl⟩
+    | point => simp [decVal] at h
+    | «opaque» => simp [decVal] at h
+    | uint _ => simp [decVal] at h
+    | bool => simp [decVal] at h
+    | text => simp [decVal] at h
+    | bytes => simp [decVal] at h
+    | fixed _ => simp [decVal] at h
+    | list _ => simp [decVal] at h
+    | struct _ => simp [decVal] at h
+  | s, .mapI xs, v, h => by
+    cases s with
+    | raw => simpa [decVal] using h
+    | map k e =>
+      simp only [decVal, Option.map_eq_some_iff] at h ⊢
+      obtain ⟨vs, hvs, rfl⟩ := h
+      exact ⟨vs, strict_lax_map k e xs vs hvs, rfl⟩
+    | point => simp [decVal] at h
+    | «opaque» => simp [decVal] at h
+    | uint _ => simp [decVal] at h
+    | bool => simp [decVal] at h
+    | text => simp [decVal] at h
+    | bytes => simp [decVal] at h
+    | fixed _ => simp [decVal] at h
+    | list _ => simp [decVal] at h
+    | struct _ => simp [decVal] at h
+  | s, .int neg w n, v, h => by
+    simp only [decVal] at h ⊢; exact decLeaf_strict_lax s _ v h
+  | s, .str txt w b, v, h => by
+    simp only [decVal] at h ⊢; exact decLeaf_strict_lax s _ v h
+  | s, .strI txt cs, v, h => by
+    simp only [decVal] at h ⊢; exact decLeaf_strict_lax s _ v h
+  | s, .prim w n, v, h => by
+    simp only [decVal] at h ⊢; exact decLeaf_strict_lax s _ v h
+theorem strict_lax_list : ∀ (e : Shape) (xs : List Cbor) (vs : List Val),
+    decList Mode.strict e xs = some vs → decList Mode.lax e xs = some vs
+  | _, [], vs, h => by simpa [decList] using h
+  | e, x :: xs, vs, h => by
+    simp only [decList] at h ⊢
+    split at h
+    · rename_i v vs' hv hvs
+      simp only [Option.some.injEq] at h; subst h
+      simp [strict_lax e x v hv, strict_lax_list e xs vs' hvs]
+    · cases h
+theorem strict_lax_fields : ∀ (fs : List Shape) (xs : List Cbor) (vs : List Val),
+    decFields Mode.strict fs xs = some vs → decFields Mode.lax fs xs = some vs
+  | [], [], vs, h => by simpa [decFields] using h
+  | f :: fs, x :: xs, vs, h => by
+    simp only [decFields] at h ⊢
+    split at h
+    · rename_i v vs' hv hvs
+      simp only [Option.some.injEq] at h; subst h
+      simp [strict_lax f x v hv, strict_lax_fields fs xs vs' hvs]
+    · cases h
+  | [], _ :: _, vs, h => by simp [decFields] at h
+  | _ :: _, [], vs, h => by simp [decFields] at h
+theorem strict_lax_map : ∀ (k e : Shape) (xs : List Cbor) (vs : List Val),
+    decMap Mode.strict k e xs = some vs → decMap Mode.lax k e xs = some vs
+  | _, _, [], vs, h => by simpa [decMap] using h
+  | _, _, [_], vs, h => by simp [decMap] at h
+  | k, e, x :: y :: xs, vs, h => by
+    simp only [decMap] at h ⊢
+    split at h
+    · rename_i a b vs' ha hb hvs
+      simp only [Option.some.injEq] at h; subst h
+      simp [strict_lax k x a ha, strict_lax e y b hb, strict_lax_map k e xs vs' hvs]
+    · cases h
+end
+
+
+
+theorem leaf_iff (s : Shape) (t : Cbor) (ht : ∀ w n x, t ≠ .tag w n x) (ha : ∀ w xs, t ≠ .arr w xs)
+    (hai : ∀ xs, t ≠ .arrI xs) (hm : ∀ w xs, t ≠ .map w xs) (hmi : ∀ xs, t ≠ .mapI xs) :
+    (decLeaf Mode.strict s t).isSome = leafConforms s t := by
+  cases t with
+  | tag w n x => exact absurd rfl (ht w n x)
+  | arr w xs => exact absurd rfl (ha w xs)
+  | arrI xs => exact absurd rfl (hai xs)
+  | map w xs => exact absurd rfl (hm w xs)
+  | mapI xs => exact absurd rfl (hmi xs)
+  | int neg w n =>
+    cases s <;> cases neg <;> simp [decLeaf, leafConforms, Mode.strict, strPayload]
+    all_goals (split <;> simp_all)
+  | str txt w b =>
+    cases s <;> cases txt <;> simp [decLeaf, leafConforms, Mode.strict, strPayload]
+    all_goals (split <;> simp_all)
+  | strI txt cs =>
+    cases s <;> cases txt <;> simp [decLeaf, leafConforms, Mode.strict, strPayload]
+    all_goals (split <;> simp_all)
+  | prim w n =>
+    cases s <;> simp [decLeaf, leafConforms, Mode.strict, strPayload]
+    all_goals (split <;> simp_all)
+
+
+
+theorem decPoint_iff_arr (w : W) (xs : List Cbor) : (decPoint false (.arr w xs)).isSome = pointConforms xs := by
+  unfold decPoint items pointPair
+  simp only
+  match xs with
+  | [] => simp [pointConforms]
+  | [x] => cases x <;> simp [pointConforms]
+  | [x, y] =>
+    cases x with
+    | int neg w' n =>
+      cases neg
+      · cases y with
+        | str txt wy b => cases txt <;> simp [pointConforms, strPayload]
+        | strI txt cs => cases txt <;> simp [pointConforms, strPayload]
+        | _ => simp [pointConforms, strPayload]
+      · cases y <;> simp [pointConforms]
+    | _ => simp [pointConforms]
+  | _ :: _ :: _ :: _ => simp [pointConforms]
+
+theorem decPoint_iff_arrI (xs : List Cbor) : (decPoint false (.arrI xs)).isSome = pointConforms xs := by
+  unfold decPoint items pointPair
+  simp only
+  match xs with
+  | [] => simp [pointConforms]
+  | [x] => cases x <;> simp [pointConforms]
+  | [x, y] =>
+    cases x with
+    | int neg w' n =>
+      cases neg
+      · cases y with
+        | str txt wy b => cases txt <;> simp [pointConforms, strPayload]
+        | strI txt cs => cases txt <;> simp [pointConforms, strPayload]
+        | _ => simp [pointConforms, strPayload]
+      · cases y <;> simp [pointConforms]
+    | _ => simp [pointConforms]
+  | _ :: _ :: _ :: _ => simp [pointConforms]
+
+
+
+theorem isSome_map {α β : Type} (o : Option α) (f : α → β) : (o.map f).isSome = o.isSome := by
+  cases o <;> rfl
+
+theorem raw_isSome (m : Mode) : ∀ t : Cbor, (decVal m .raw t).isSome = true
+  | .tag w n x => by
+    simp only [decVal]
+    split
+    · exact raw_isSome m x
+    · rfl
+  | .arr _ _ => by simp [decVal]
+  | .arrI _ => by simp [decVal]
+  | .map _ _ => by simp [decVal]
+  | .mapI _ => by simp [decVal]
+  | .int _ _ _ => by simp [decVal, decLeaf]
+  | .str _ _ _ => by simp [decVal, decLeaf]
+  | .strI _ _ => by simp [decVal, decLeaf]
+  | .prim _ _ => by simp [decVal, decLeaf]
+
+mutual
+theorem strict_iff_conforms : ∀ (s : Shape) (t : Cbor), (decVal Mode.strict s t).isSome = conforms s t
+  | s, .tag w n x => by
+    cases s with
+    | bytes =>
+      simp only [decVal, conforms, Mode.strict, Bool.false_or]
+      by_cases hn : n = 24
+      · have := strict_iff_conforms .bytes x
+        simp only [Mode.strict] at this
+        simp [hn, this]
+      · simp [hn]
+    | raw => simp only [conforms]; exact raw_isSome Mode.strict (.tag w n x)
+    | point => simp [decVal, conforms, Mode.strict]
+    | «opaque» => simp [decVal, conforms]
+    | uint _ => simp [decVal, conforms, Mode.strict]
+    | bool => simp [decVal, conforms, Mode.strict]
+    | text => simp [decVal, conforms, Mode.strict]
+    | fixed _ => simp [decVal, conforms, Mode.strict]
+    | list _ => simp [decVal, conforms, Mode.strict]
+    | map _ _ => simp [decVal, conforms, Mode.strict]
+    | struct _ => simp [decVal, conforms, Mode.strict]
+  | s, .arr w xs => by
+    cases s with
+    | raw => simp [decVal, conforms]
+    | point => simp only [decVal, conforms, Mode.strict]; exact decPoint_iff_arr w xs
+    | list e => simp only [decVal, conforms, isSome_map]; exact strict_iff_conformsL e xs
+    | struct fs => simp only [decVal, conforms, isSome_map]; exact strict_iff_conformsF fs xs
+    | bytes => simp [decVal, conforms, Mode.strict]
+    | fixed _ => simp [decVal, conforms, Mode.strict]
+    | «opaque» => simp [decVal, conforms]
+    | uint _ => simp [decVal, conforms]
+    | bool => simp [decVal, conforms]
+    | text => simp [decVal, conforms]
+    | map _ _ => simp [decVal, conforms]
+  | s, .arrI xs => by
+    cases s with
+    | raw => simp [decVal, conforms]
+    | point => simp only [decVal, conforms, Mode.strict]; exact decPoint_iff_arrI xs
+    | list e => simp only [decVal, conforms, isSome_map]; exact strict_iff_conformsL e xs
+    | struct fs => simp only [decVal, conforms, isSome_map]; exact strict_iff_conformsF fs xs
+    | bytes => simp [decVal, conforms, Mode.strict]
+    | fixed _ => simp [decVal, conforms, Mode.strict]
+    | «opaque» => simp [decVal, conforms]
+    | uint _ => simp [decVal, conforms]
+    | bool => simp [decVal, conforms]
+    | text => simp [decVal, conforms]
+    | map _ _ => simp [decVal, conforms]
+  | s, .map w xs => by
+    cases s with
+    | raw => simp [decVal, conforms]
+    | map k e => simp only [decVal, conforms, isSome_map]; exact strict_iff_conformsM k e xs
+    | point => simp [decVal, conforms]
+    | «opaque» => simp [decVal, conforms]
+    | uint _ => simp [decVal, conforms]
+    | bool => simp [decVal, conforms]
+    | text => simp [decVal, conforms]
+    | bytes => simp [decVal, conforms]
+    | fixed _ => simp [decVal, conforms]
+    | list _ => simp [decVal, conforms]
+    | struct _ => simp [decVal, conforms]
+  | s, .mapI xs => by
+    cases s with
+    | raw => simp [decVal, conforms]
+    | map k e => simp only [decVal, conforms, isSome_map]; exact strict_iff_conformsM k e xs
+    | point => simp [decVal, conforms]
+    | «opaque» => simp [decVal, conforms]
+    | uint _ => simp [decVal, conforms]
+    | bool => simp [decVal, conforms]
+    | text => simp [decVal, conforms]
+    | bytes => simp [decVal, conforms]
+    | fixed _ => simp [decVal, conforms]
+    | list _ => simp [decVal, conforms]
+    | struct _ => simp [decVal, conforms]
+  | s, .int neg w n => by
+    simp only [decVal, conforms]
+    exact leaf_iff s _ (by simp) (by simp) (by simp) (by simp) (by simp)
+  | s, .str txt w b => by
+    simp only [decVal, conforms]
+    exact leaf_iff s _ (by simp) (by simp) (by simp) (by simp) (by simp)
+  | s, .strI txt cs => by
+    simp only [decVal, conforms]
+    exact leaf_iff s _ (by simp) (by simp) (by simp) (by simp) (by simp)
+  | s, .prim w n => by
+    simp only [decVal, conforms]
+    exact leaf_iff s _ (by simp) (by simp) (by simp) (by simp) (by simp)
+theorem strict_iff_conformsL : ∀ (e : Shape) (xs : List Cbor), (decList Mode.strict e xs).isSome = conformsL e xs
+  | _, [] => by simp [decList, conformsL]
+  | e, x :: xs => by
+    have h1 := strict_iff_conforms e x
+    have h2 := strict_iff_conformsL e xs
+    simp only [decList, conformsL, ← h1, ← h2]
+    cases decVal Mode.strict e x <;> cases decList Mode.strict e xs <;> simp
+theorem strict_iff_conformsF : ∀ (fs : List Shape) (xs : List Cbor), (decFields Mode.strict fs xs).isSome = conformsF fs xs
+  | [], [] => by simp [decFields, conformsF]
+  | f :: fs, x :: xs => by
+    have h1 := strict_iff_conforms f x
+    have h2 := strict_iff_conformsF fs xs
+    simp only [decFields, conformsF, ← h1, ← h2]
+    cases decVal Mode.strict f x <;> cases decFields Mode.strict fs xs <;> simp
+  | [], _ :: _ => by simp [decFields, conformsF]
+  | _ :: _, [] => by simp [decFields, conformsF]
+theorem strict_iff_conformsM : ∀ (k e : Shape) (xs : List Cbor), (decMap Mode.strict k e xs).isSome = conformsM k e xs
+  | _, _, [] => by simp [decMap, conformsM]
+  | _, _, [_] => by simp [decMap, conformsM]
+  | k, e, x :: y :: xs => by
+    have h1 := strict_iff_conforms k x
+    have h2 := strict_iff_conforms e y
+    have h3 := strict_iff_conformsM k e xs
+    simp only [decMap, conformsM, ← h1, ← h2, ← h3]
+    cases decVal Mode.strict k x <;> cases decVal Mode.strict e y <;> cases decMap Mode.strict k e xs <;> simp
+end
 
 end GV.Proofs.MsgCodec
